@@ -104,6 +104,21 @@ theorem quantizePlain_spec (pal : List RGB) (hne : pal ≠ []) (px : List RGB) :
     · exact ⟨c, hc, hmin⟩
     · exact hall p hp
 
+/-- whatever colours are looked up: one valid index each -/
+theorem quantizePlain_valid (pal : List RGB) (hne : pal ≠ []) (qs : List RGB) :
+    ∃ is, quantizePlain ⟨pal, kdNew pal⟩ qs = some is ∧ is.length = qs.length ∧
+      ∀ i ∈ is, i < pal.length := by
+  induction qs with
+  | nil => exact ⟨[], rfl, rfl, by simp⟩
+  | cons q qs ih =>
+    obtain ⟨is, h1, hlen, hall⟩ := ih
+    obtain ⟨i, c, hf, hc, _⟩ := find_spec pal hne q
+    refine ⟨i :: is, by simp only [quantizePlain, hf, h1], by simp [hlen], ?_⟩
+    intro j hj
+    rcases List.mem_cons.mp hj with rfl | hj
+    · exact (List.getElem?_eq_some_iff.mp hc).1
+    · exact hall j hj
+
 theorem dist_self (q : RGB) : dist q q = 0 := by simp [dist, sqr]
 
 theorem dist_eq_zero (a b : RGB) (h : dist a b = 0) : a = b := by
